@@ -33,6 +33,17 @@ CLAIMS = {
          "publications, and the real commit-loop predicate with the real cancel() and finality notification. All interleavings, <=3 wait rounds.",
     note=TRUST + "std parker modelled as one token per thread (unpark-before-park makes park return); OnceLock set/get atomic; SC.",
     design="5/C17"),
+ "C04": dict(
+    text="Bounded model checking of the real error paths (MIR -> C): post_execute for every abort reason x arbitrary per-tx results; "
+         "run_commit_loop + install_commit_loop_result with a solver-chosen commit outcome per index (ok / needs-fallback / database error), "
+         "arbitrary finality progress and foreign aborts; execute_sequential_suffix with a solver-chosen transact oracle; and the real "
+         "execute_task error branch racing the predecessor's publication and commit (all interleavings, n=2): a fatal error is reported "
+         "only for an attempt that read the state of its committed predecessors, the returned index equals the committed boundary, "
+         "outcomes are exactly that prefix, error payloads are unchanged.",
+    note=TRUST + "Transactions are abstract (opaque result ids, an abstract state version read once per attempt); OrderedCommitter::commit, "
+         "the suffix replay body and the executor are solver-chosen oracles in these kernels (commit itself is decided in C03). Faults inside "
+         "revm opcodes other than through these interfaces are outside the claim. n<=3, <=2 environment steps in the commit-loop kernel.",
+    design="5/C04"),
 }
 NA = {}
 props = [json.loads(l) for l in open(os.path.join(V, "properties.jsonl"))]
